@@ -170,6 +170,11 @@ impl<F: Float> Transformer<Kernel<F>, DatasetBase<Kernel<F>, Vec<usize>>>
             ct += 1;
         }
 
+        // number the clusters by their smallest member, so that the ids do not depend on the
+        // iteration order of the hash map
+        let mut clusters = clusters.into_iter().collect::<Vec<_>>();
+        clusters.sort_unstable_by_key(|(_, ids)| ids.iter().min().copied());
+
         // flatten resulting clusters and reverse index
         let mut tmp = vec![0; num_observations];
         for (i, (_, ids)) in clusters.into_iter().enumerate() {
